@@ -82,6 +82,21 @@ func scribbleModel(m *openfgav1.AuthorizationModel) {
 		delete(m.Conditions, k)
 		break
 	}
+	// structural edits too: new entries in every map the result carries (also
+	// in empty ones - an empty map shared between results is only reachable
+	// this way) and new elements at the end of its slices
+	if m.Conditions != nil {
+		m.Conditions[scribbleText()] = &openfgav1.Condition{Name: scribbleText(), Expression: "1 == 1"}
+	}
+	for _, td := range m.GetTypeDefinitions() {
+		if td.Relations != nil {
+			td.Relations[scribbleText()] = &openfgav1.Userset{Userset: &openfgav1.Userset_This{}}
+		}
+		if md := td.GetMetadata(); md != nil && md.Relations != nil {
+			md.Relations[scribbleText()] = &openfgav1.RelationMetadata{}
+		}
+	}
+	m.TypeDefinitions = append(m.TypeDefinitions, &openfgav1.TypeDefinition{Type: scribbleText()})
 }
 
 // scribbleWeighted writes into everything the read accessors of a finished
